@@ -15,7 +15,7 @@ enum { ST_PROGRESS = 0, ST_OK = 1, ST_FAIL = 2 };
 #define OP_E 100020
 #define OP_F 100030
 
-struct lctx { asn_TYPE_descriptor_t *td; enum asn_transfer_syntax sy; const unsigned char *x; int n; void *s; int c; int status; int lastrc; };
+struct lctx { asn_TYPE_descriptor_t *td; enum asn_transfer_syntax sy; const unsigned char *x; int n; void *s; int c; int status; int lastrc; int touched; };
 static enum asn_transfer_syntax ESYN[5] = { ATS_DER, ATS_CANONICAL_OER, ATS_UNALIGNED_CANONICAL_PER, ATS_BASIC_XER, ATS_CANONICAL_XER };
 static const unsigned char G0[8] = { 0xff, 0xff, 0xff, 0xff, 0xff, 0xff, 0xff, 0xff };
 static const unsigned char G1[8] = { 0, 0, 0, 0, 0, 0, 0, 0 };
@@ -26,6 +26,7 @@ NI static void feed(struct lctx *L, const unsigned char *b, int len) {
     asn_dec_rval_t r = asn_decode(0, L->sy, L->td, &L->s, p, len);
     exact_free(p, len);
     L->lastrc = r.code;
+    L->touched = 1;
     if((int)r.consumed > len) L->lastrc = 99;
     L->c += r.consumed;
     L->status = r.code == RC_OK ? ST_OK : r.code == RC_FAIL ? ST_FAIL : ST_PROGRESS;
@@ -40,15 +41,16 @@ NI static void apply(struct lctx *L, int op) {
         if(L->status == ST_PROGRESS) L->status = ST_FAIL;   /* the stream is now corrupt: do not continue it */
     } else if(op == OP_Z) {
         if(L->s) ASN_STRUCT_RESET(*L->td, L->s);
-        L->c = 0; L->status = ST_PROGRESS; L->lastrc = -1;
+        L->c = 0; L->status = ST_PROGRESS; L->lastrc = -1; L->touched = 0;
     } else if(op < OP_F) {
-        if(L->s) { asn_enc_rval_t er = asn_encode(0, ESYN[op - OP_E], L->td, L->s, null_cb, 0); L->lastrc = er.encoded < 0 ? -2 : -3; }
+        static const char *SN[5] = { "der", "oer", "uper", "xer", "cxer" };
+        if(L->s && !pm_masked(SN[op - OP_E])) { asn_enc_rval_t er = asn_encode(0, ESYN[op - OP_E], L->td, L->s, null_cb, 0); L->lastrc = er.encoded < 0 ? -2 : -3; }
     } else if(op == OP_F) {
         ASN_STRUCT_FREE(*L->td, L->s); L->s = 0;
     }
 }
 
-struct lst { int *hist; int hl; int c, status; unsigned char *img; size_t il; };
+struct lst { int *hist; int hl; int c, status, touched; unsigned char *img; size_t il; };
 static struct lst *S; static int ns, cap_s;
 static unsigned char *imgbuf; static size_t imgcap = 1 << 22;
 
@@ -62,7 +64,7 @@ NI static void lviol(struct lres *R, const char *kind, const int *hist, int hl, 
 }
 
 NI static void init_ctx(struct lctx *L, asn_TYPE_descriptor_t *td, enum asn_transfer_syntax sy, const unsigned char *x, int n) {
-    L->td = td; L->sy = sy; L->x = x; L->n = n; L->s = 0; L->c = 0; L->status = ST_PROGRESS; L->lastrc = -1;
+    L->td = td; L->sy = sy; L->x = x; L->n = n; L->s = 0; L->c = 0; L->status = ST_PROGRESS; L->lastrc = -1; L->touched = 0;
 }
 
 NI static int is_zero_block(void *p) {
@@ -101,7 +103,9 @@ void cmd_life(char **a, int na) {
     for(int q = 0; q < ns; q++) {
         struct lst cur = S[q];
         int nops = 0;
-        if(cur.status == ST_PROGRESS) { for(int p = cur.c + 1; p <= (int)n; p++) ops[nops++] = p; for(int g = 0; g < 3; g++) ops[nops++] = OP_G + g; }
+        /* PER decoders are not restartable: a second decode call into a structure that already saw one is API misuse */
+        int per = (sy == ATS_UNALIGNED_BASIC_PER || sy == ATS_UNALIGNED_CANONICAL_PER);
+        if(cur.status == ST_PROGRESS && !(per && cur.touched)) { for(int p = cur.c + 1; p <= (int)n; p++) ops[nops++] = p; for(int g = 0; g < 3; g++) ops[nops++] = OP_G + g; }
         ops[nops++] = OP_Z;
         for(int e = 0; e < 5; e++) ops[nops++] = OP_E + e;
         ops[nops++] = OP_F;
@@ -130,13 +134,13 @@ void cmd_life(char **a, int na) {
                 }
                 size_t il = canon_image(imgbuf, imgcap);
                 int found = 0;
-                for(int j = ns - 1; j >= 0; j--) if(S[j].c == L.c && S[j].status == L.status && S[j].il == il && (il == 0 || !memcmp(S[j].img, imgbuf, il))) { found = 1; break; }
+                for(int j = ns - 1; j >= 0; j--) if(S[j].c == L.c && S[j].status == L.status && S[j].touched == L.touched && S[j].il == il && (il == 0 || !memcmp(S[j].img, imgbuf, il))) { found = 1; break; }
                 if(!found && cur.hl + 1 <= depth) {
                     if(ns >= maxstates) capped = 1;
                     else {
                         if(ns == cap_s) { cap_s *= 2; S = __real_realloc(S, cap_s * sizeof *S); cur = S[q]; }
                         struct lst *N = &S[ns++];
-                        N->c = L.c; N->status = L.status; N->il = il; N->img = __real_malloc(il ? il : 1); memcpy(N->img, imgbuf, il);
+                        N->c = L.c; N->status = L.status; N->touched = L.touched; N->il = il; N->img = __real_malloc(il ? il : 1); memcpy(N->img, imgbuf, il);
                         N->hl = cur.hl + 1; N->hist = __real_malloc(N->hl * sizeof(int));
                         if(cur.hl) memcpy(N->hist, cur.hist, cur.hl * sizeof(int));
                         N->hist[cur.hl] = op;
